@@ -687,7 +687,11 @@ def _cmp_transform_pandas(F, Pvals, vals, rows_ok, what="pandas"):
     for c, pv in Pvals.items():
         fv = fc[c].tolist()
         if len(fv) != len(pv): return f"length {len(fv)} vs {len(pv)}"
-        bad = [(i, fv[i], pv[i]) for i in range(len(pv)) if rows_ok[i] and pv[i] is not _ABSENT and not C.is_null(vals[c][i]) and not _num_eq(fv[i], pv[i])]
+        # pandas quirk, not part of the agreement the property asks for: for DATETIMELIKE values pandas' groupby cummin/cummax do not skip NaT - once a group
+        # has seen a NaT every later row of the group is NaT, although the row holds a value (numeric columns do skip NaN). The library's semantics there is
+        # the one C08 states (extremum of the non-null values so far); such rows are left to C08.
+        def pandas_nat_quirk(i): return isinstance(vals[c][i], (pd.Timestamp, pd.Timedelta, np.datetime64, np.timedelta64)) and C.is_null(pv[i]) and not C.is_null(fv[i])
+        bad = [(i, fv[i], pv[i]) for i in range(len(pv)) if rows_ok[i] and pv[i] is not _ABSENT and not C.is_null(vals[c][i]) and not _num_eq(fv[i], pv[i]) and not pandas_nat_quirk(i)]
         if bad: return f"numbers (column {c}) at rows holding a non-null value: (row, facade, {what}) {bad[:3]}"
     return None
 
